@@ -413,7 +413,12 @@ func (p *Prog) WithFile(file string, content []byte) (*Prog, error) {
 	np.Types = tp
 	np.TypesInfo = info
 	q := &Prog{Fset: p.Fset, ByPath: map[string]*packages.Package{}, Funcs: map[*types.Func]*FuncInfo{}, AllPkgs: p.AllPkgs,
-		RepoDir: p.RepoDir, domCache: map[string][]constant.Value{}, SymDefs: p.SymDefs, symOf: p.symOf}
+		RepoDir: p.RepoDir, domCache: map[string][]constant.Value{}, SymDefs: p.SymDefs, symOf: p.symOf, Overlay: map[string][]byte{file: content}}
+	for k, v := range p.Overlay {
+		if _, ok := q.Overlay[k]; !ok {
+			q.Overlay[k] = v
+		}
+	}
 	for _, pkg := range p.Pkgs {
 		if pkg == target {
 			q.Pkgs = append(q.Pkgs, &np)
